@@ -320,9 +320,11 @@ def make_init(cls_name, cfg, seed):
     return O.GeneticProgramming.half_and_half(pop, uniset(), 4)
 
 
-def record(cls_name, cfg):
+def record(cls_name, cfg, between=None):
     rec = Recorder(cls_name, cfg)
     opt, kw = build(cls_name, cfg, rec)
+    if between is not None:
+        between()       # whatever happens between constructing an optimizer and starting its run
     opt.fit()
     rec.opt, rec.kw = opt, kw
     rec.final = {
